@@ -293,7 +293,7 @@ func c08R4(c *Ctx, rule string) {
 		infl := c.P.LookupField("leaderState", "inflight")
 		r := c.Run(&engine.Automaton{Fn: def, Tracks: []engine.Track{
 			{Name: "walk", If: func(cd engine.Cond, _ *ssa.If) (bool, int) {
-				if cd.IsRel && strings.Contains(cd.X, "recv.leaderState.inflight.Front()") && cd.Y == "nil" && cd.EdgeOrd(true) == engine.LT|engine.GT {
+				if cd.IsRel && strings.Contains(cd.X, "recv.leaderState.inflight.Front()") && cd.Y == "nil" && isNEc(cd) {
 					return true, engine.True
 				}
 				return false, 0
@@ -422,7 +422,7 @@ func c08R5(c *Ctx, rule string) {
 			}, Kills: []string{"should"}},
 			engine.PredCond("lenMismatch", func(cd engine.Cond) (bool, int) {
 				if cd.IsRel && strings.HasPrefix(cd.X, "len(") && strings.HasPrefix(cd.Y, "len(") && strings.Contains(cd.Y, "ApplyBatch(") {
-					if cd.EdgeOrd(true) == engine.LT|engine.GT {
+					if isNEc(cd) {
 						return true, engine.True
 					}
 					return true, engine.False
